@@ -92,7 +92,7 @@ def run_shard(rec, tier, seed, shard, nshards):
             rec.check(daa == 0, "C07/metric/nonzero-on-identical", "d(a,a)=%r" % daa, {"a": a})
 
     # ---------------- assembly
-    n_asm = 24 if tier == "quick" else 160
+    n_asm = 60 if tier == "quick" else 240
     with kit.scratch_dir("vf-c07-") as tmp:
         for t in range(n_asm):
             n = int(rng.integers(0, 10))
